@@ -1,0 +1,40 @@
+//go:build verif
+
+/*
+Copyright 2024 The Crossplane Authors.
+
+Licensed under the Apache License, Version 2.0 (the "License");
+you may not use this file except in compliance with the License.
+You may obtain a copy of the License at
+
+    http://www.apache.org/licenses/LICENSE-2.0
+
+Unless required by applicable law or agreed to in writing, software
+distributed under the License is distributed on an "AS IS" BASIS,
+WITHOUT WARRANTIES OR CONDITIONS OF ANY KIND, either express or implied.
+See the License for the specific language governing permissions and
+limitations under the License.
+*/
+
+package signature
+
+import (
+	"github.com/sigstore/cosign/v2/pkg/cosign"
+	"k8s.io/client-go/kubernetes"
+	"sigs.k8s.io/controller-runtime/pkg/client"
+)
+
+// NewCosignValidatorWithBase returns a CosignValidator whose base check
+// options are given by the caller instead of being fetched from the Sigstore
+// TUF root, which needs network access. It only exists in builds with the
+// verif tag, where runtime monitors drive the real validator offline.
+func NewCosignValidatorWithBase(c client.Reader, k kubernetes.Interface, namespace, serviceAccount string, base cosign.CheckOpts) *CosignValidator {
+	return &CosignValidator{
+		client:         c,
+		clientset:      k,
+		namespace:      namespace,
+		serviceAccount: serviceAccount,
+
+		baseCheckOpts: base,
+	}
+}
